@@ -314,6 +314,9 @@ namespace ip {
 			post(m_io_service, aux::make_malloc(std::bind(std::move(m_connect_handler)
 				, boost::system::error_code(error::operation_aborted))));
 			m_connect_handler = nullptr;
+			// the connection attempt is abandoned. A SYN+ACK that arrives
+			// later is ignored
+			m_channel.reset();
 		}
 	}
 
@@ -811,6 +814,10 @@ namespace ip {
 
 	void tcp::socket::incoming_packet(aux::packet p)
 	{
+		// not (or no longer) connected: the attempt was cancelled or
+		// end-of-file has been read. Late packets vanish
+		if (!m_channel) return;
+
 		switch (p.type)
 		{
 			case aux::packet::type_t::uninitialized:
